@@ -19,8 +19,10 @@ theorem skel_handleCall_shape :
   "done := func{…}",
   "  if !keepCtx",
   "    cancel()",
+  "epoch := atomic.LoadUint64(&c.connEpoch)",
   "if frame.ID != nil",
-  "  nextWriter = c.nextWriter",
+  "  nextWriter = func{…}",
+  "    c.nextWriter(epoch, cb)",
   "  c.handlingLk.Lock()",
   "  c.handling[frame.ID] = cancel",
   "  c.handlingLk.Unlock()",
@@ -29,8 +31,11 @@ theorem skel_handleCall_shape :
   "    defer c.handlingLk.Unlock()",
   "    if !keepctx",
   "      cancel()",
-  "      delete(c.handling, frame.ID)",
-  "go c.handler.handle(ctx, req, nextWriter, rpcError, done, c.handleChanOut)"] := rfl
+  "      if atomic.LoadUint64(&c.connEpoch) == epoch",
+  "        delete(c.handling, frame.ID)",
+  "chOut := func{…}",
+  "  return c.handleChanOut(epoch, ch, id)",
+  "go c.handler.handle(ctx, req, nextWriter, rpcError, done, chOut)"] := rfl
 
 /-- `handleCtxAsync`: when the subscription context is done, one `xrpc.cancel [id]` with the subscribing call's id is written. -/
 theorem skel_handleCtxAsync_shape :
@@ -71,6 +76,9 @@ theorem skel_nextWriter_shape :
     Generated.skel_nextWriter = [
   "c.writeLk.Lock()",
   "defer c.writeLk.Unlock()",
+  "if atomic.LoadUint64(&c.connEpoch) != epoch",
+  "  cb(io.Discard)",
+  "  return",
   "wcl, err := c.conn.NextWriter(websocket.TextMessage)",
   "if err != nil",
   "  return",
